@@ -244,50 +244,58 @@ def run(ctx):
     napplic = 0
     skipped = {}
     aid = 0
-    for name, fn, build, arrs, seeded in cat:
-        layouts = LAYOUTS if ctx.tier == "thorough" or True else LAYOUTS[:2]
-        for layout in layouts:
+    # Functions that share an argument builder form a group: for every input layout the group's arguments are built
+    # ONCE, and the whole group is called twice in sequence on those same objects (round 0, then round 1).  A function
+    # that disturbs state another one depends on (e.g. sorts an array a later call returns) makes round 1 differ.
+    groups = {}
+    for entry in cat:
+        groups.setdefault(id(entry[2]), []).append(entry)
+    for gid, entries in groups.items():
+        build = entries[0][2]
+        for layout in LAYOUTS:
             rng = np.random.default_rng(ctx.seed + 18)
             base = build(rng)
+            allarrs = sorted({k for e in entries for k in e[3]})
             args = {}
-            ids = []
             for k, v in base.items():
-                if isinstance(v, np.ndarray) and k in arrs:
+                if isinstance(v, np.ndarray) and k in allarrs:
                     try:
                         v = relayout(v, layout)
                     except Exception:
                         pass
                 args[k] = v
-            tracked = [k for k in arrs if k in args]
-            for k in tracked:
-                aid += 1
-                ids.append("a%d" % aid)
-                events.append({"ev": "alloc", "id": ids[-1], "digest": digest(args[k])})
-                owner.append((name, layout, k))
-            results = []
-            ok = True
+            idof = {}
+            for k in allarrs:
+                if k in args:
+                    aid += 1
+                    idof[k] = "a%d" % aid
+                    events.append({"ev": "alloc", "id": idof[k], "digest": digest(args[k])})
+                    owner.append((entries[0][0], layout, k))
+            okcount = {}
             for rep in (0, 1):
-                np.random.seed(12345)
-                try:
-                    with warnings.catch_warnings(), np.errstate(all="ignore"), quiet_stdout():
-                        warnings.simplefilter("ignore")
-                        r = fn(args)
-                    results.append(digest(r))
-                except _ArgumentModified as e:
-                    results.append("modified:" + str(e))
-                    ctx.violation("%s:argument-modified" % name, str(e), {"function": name, "layout": layout})
-                except Exception as e:
-                    # this input layout is not accepted by the function: not a call of the catalogue; the arguments must still be intact
-                    results.append("exc:" + type(e).__name__)
-                    ok = False
-                events.append({"ev": "call", "fn": name + "@" + layout, "args": ids, "seed": 12345,
-                               "post": [digest(args[k]) for k in tracked], "result": results[-1]})
-                owner.append((name, layout, None))
-            if ok:
-                napplic += 1
-                ctx.count({"fn": name, "layout": layout}, True)
-            else:
-                skipped[name + "@" + layout] = results[-1]
+                for name, fn, _b, arrs, seeded in entries:
+                    tracked = [k for k in arrs if k in args]
+                    np.random.seed(12345)
+                    try:
+                        with warnings.catch_warnings(), np.errstate(all="ignore"), quiet_stdout():
+                            warnings.simplefilter("ignore")
+                            r = fn(args)
+                        res_digest = digest(r)
+                        okcount[name] = okcount.get(name, 0) + 1
+                    except _ArgumentModified as e:
+                        res_digest = "modified:" + str(e)
+                        ctx.violation("%s:argument-modified" % name, str(e), {"function": name, "layout": layout})
+                    except Exception as e:
+                        # this input layout is not accepted by the function: not a call of the catalogue; the arguments must still be intact
+                        res_digest = "exc:" + type(e).__name__
+                        skipped[name + "@" + layout] = res_digest
+                    events.append({"ev": "call", "fn": name + "@" + layout, "args": [idof[k] for k in tracked], "seed": 12345,
+                                   "post": [digest(args[k]) for k in tracked], "result": res_digest})
+                    owner.append((name, layout, None))
+            for name, cnt in okcount.items():
+                if cnt == 2:
+                    napplic += 1
+                    ctx.count({"fn": name, "layout": layout}, True)
     path = ctx.workfile("purity_trace.ndjson")
     with open(path, "w") as f:
         for e in events:
